@@ -57,6 +57,8 @@ def pd_class(r: fb.Rng, neg_ok=True, big_ok=True):
         d = r.choice(DIVS); p = r.uniform(0.0, 4.0) * d / 2.0
     if neg_ok and r.chance(0.25):
         p = -p
+    if neg_ok and r.chance(0.15):
+        d = -d                                              # negative divisors (either sign of p): total = p*PI/d < 0 or > 0
     return p, d
 
 def gen_angle(P: Prog, r: fb.Rng, neg_ok=True, big_ok=True):
